@@ -521,3 +521,30 @@ def debug_structs(tier):
         # no fields at all
         out.append(Struct(n, [], debug=True, twin=True, family='DBG0', passes=p))
     return out
+
+
+# ------------------------------------------------------------------------------------------------
+# C15: const-context cross-section
+
+def const_set(tier):
+    import dataclasses
+    structs = []
+    small = range(1, 9)
+    wide = (12, 16, 24, 32, 64, 100, 128) if tier == 'quick' else (9, 12, 16, 17, 24, 31, 32, 33, 48, 63, 64, 65, 96, 100, 127, 128)
+    for n in list(small) + list(wide):
+        structs.append(mix_struct(n))
+        structs.append(mix_builder_struct(n))
+    for n in (4, 8, 16, 32) if tier == 'quick' else (3, 4, 6, 8, 12, 16, 24, 32, 64, 128):
+        fs = custom_fields(n, 'quick')
+        step = max(1, len(fs) // (24 if tier == 'quick' else 60))
+        structs += L.pack(n, fs[::step], 'CUSTOM', per=12)
+    bs = builder_structs('quick')
+    structs += bs[::(25 if tier == 'quick' else 3)]
+    # signed / non-contiguous / array samples on small bases
+    structs += L.pack(8, L.noncontig(8, [2])[::(40 if tier == 'quick' else 6)], 'NC', per=10)
+    structs += L.pack(8, L.arrays_full(8)[::(12 if tier == 'quick' else 2)], 'ARR', per=10)
+    structs += L.pack(16, L.signed_dedicated(16)[::(3 if tier == 'quick' else 1)], 'SIGNED', per=10)
+    structs += consts_set('quick')[::(60 if tier == 'quick' else 6)]
+    structs = [dataclasses.replace(s, ctab=True) for s in structs]
+    eds = enum_set('quick')[::(12 if tier == 'quick' else 2)]
+    return structs, eds
